@@ -169,7 +169,9 @@ def distance_matrix(kind, direction, X, y=None, mixing=None):
     M, ok = pcov_matrix(direction, X, y, mixing)
     d = np.diag(M)
     D = d[:, None] + d[None, :] - 2.0 * M
-    return D, float(np.abs(d).max()), ok
+    # scale from the magnitudes of the inputs (a numerically zero M must not shrink the tolerance)
+    scale = float((X * X).sum() + (np.asarray(y, float) ** 2).sum())
+    return D, max(scale, float(np.abs(d).max())), ok
 
 
 def span_basis(A, rtol=1e-10):
